@@ -415,6 +415,10 @@ pub struct RunResult {
     pub pure_out: Option<String>,
     /// number of items the fan-out was asked to process and number it completed
     pub items: (u64, u64),
+    /// wall-clock milliseconds measured by the parent (used only by the content pre-screen;
+    /// never part of a verdict or a digest)
+    #[serde(default)]
+    pub wall_ms: u64,
 }
 
 impl RunResult {
@@ -439,6 +443,7 @@ impl RunResult {
             read_failed: vec![],
             pure_out: None,
             items: (0, 0),
+            wall_ms: 0,
         }
     }
 
